@@ -180,6 +180,24 @@ def check_stat_cycles(case):
                         viols.append(('stat-cycles:%s:%s' % (mode, 'projection' if out else 'value'),
                                       'cycle lengths %r mode=%s out=%r func=%s cache=%s: got %s expected %s' % (
                                           lens, mode, out, name, cache, got.tolist()[:8], exp.tolist()[:8])))
+    # the same requests with a pre-built iterator (C.iterate()) in place of the container: the mode asked for in the call governs
+    from emd.cycles import phase_align
+    C = Cycles(phase.copy())
+    for mode in ('cycle', 'augmented'):
+        for other in ('cycle', 'augmented'):
+            try:
+                a_ = np.asarray(get_cycle_stat(C, vals.copy(), mode=mode, func=np.max), dtype=float)
+                b_ = np.asarray(get_cycle_stat(C.iterate(through='cycles', mode=other), vals.copy(), mode=mode, func=np.max), dtype=float)
+                pa_ = np.asarray(phase_align(phase.copy(), vals.copy(), cycles=C, npoints=12, mode=mode)[0], dtype=float)
+                pb_ = np.asarray(phase_align(phase.copy(), vals.copy(), cycles=C.iterate(through='cycles', mode=other), npoints=12, mode=mode)[0], dtype=float)
+            except Exception as e:
+                viols.append(('stat-cycles:iterator-route:raise:%s' % type(e).__name__, 'cycle lengths %r mode=%s iterator built with mode=%s raised %r' % (lens, mode, other, e)))
+                continue
+            trans += 4
+            if a_.shape != b_.shape or not np.allclose(a_, b_, rtol=1e-12, atol=1e-12, equal_nan=True):
+                viols.append(('stat-cycles:iterator-route:stat', 'cycle lengths %r: get_cycle_stat(mode=%s) through an iterator built with mode=%s differs from the container route' % (lens, mode, other)))
+            if pa_.shape != pb_.shape or not np.allclose(pa_, pb_, rtol=1e-12, atol=1e-12, equal_nan=True):
+                viols.append(('stat-cycles:iterator-route:align', 'cycle lengths %r: phase_align(mode=%s) through an iterator built with mode=%s differs from the container route' % (lens, mode, other)))
     return Outcome(cls='stat:K=3', transitions=trans, viols=viols, nontrivial=True)
 
 
